@@ -423,6 +423,15 @@ Section StepMonitors.
              pc_post := []; pc_rv' := 0; pc_uid' := 0 |}
     | _, _ => true
     end.
+  (** C05, orphan clause for phase objects: a pass of the phase controller on a phase object that is being deleted with
+      orphan propagation (deletionTimestamp and the "orphan" finalizer) sends no request for any member. *)
+  Definition m_phase_orphan : bool :=
+    match ds_step o, ds_pre_phase o with
+    | DPhase _ _ _, Some p =>
+        negb (op_deleting p && op_orphan p) ||
+        forallb (fun e => match e with SMember _ => false | _ => true end) evs
+    | _, _ => true
+    end.
 End StepMonitors.
 
 (** The revision an ObjectSet stamps on its members never goes down over the passes of a run: it is computed once,
@@ -541,7 +550,7 @@ Definition m_final (c : drun) : bool :=
 
 Definition monitor_run (c : drun) : bool :=
   all_steps m_carries c && all_steps m_relay c && all_steps m_gate c && all_steps m_teardown c && all_steps m_class c && (dr_annot c || (all_steps m_nsbound c && all_steps m_preflight_reported c)) && m_final c &&
-  all_steps (fun o => m_handover o (dr_annot c)) c && m_phase_teardown c && m_set_revision c.
+  all_steps (fun o => m_handover o (dr_annot c)) c && m_phase_teardown c && m_set_revision c && all_steps m_phase_orphan c.
 
 (** The clause the implementation violates (known finding): kept apart from the rest of the monitor. *)
 Definition monitor_own (c : drun) : bool := all_steps m_own c && all_steps m_remotes c && all_steps m_relay_ctrlof c.
@@ -562,7 +571,7 @@ Definition judge_parts (c : tcase) : list bool :=
   [agree d; match tc_l c with Some l => agree l | None => true end;
    all_steps m_carries d; all_steps m_relay d; all_steps m_gate d; all_steps m_teardown d; all_steps m_class d && (dr_annot d || (all_steps m_nsbound d && all_steps m_preflight_reported d)); m_final d;
    t1; t2; t3; all_steps m_own d; all_steps m_remotes d; all_steps m_relay_ctrlof d;
-   all_steps (fun o => m_handover o (dr_annot d)) d; m_phase_teardown d; m_set_revision d].
+   all_steps (fun o => m_handover o (dr_annot d)) d; m_phase_teardown d; m_set_revision d; all_steps m_phase_orphan d].
 
 (** * The monitors accept the model (the parts that do not depend on a whole run) *)
 
